@@ -37,6 +37,7 @@ PROTOCOL_RUNS = [
     ("SeriesCache_mcp.cfg", "protocol: play mode (stale accepted) and forced loads", None, False),
     ("SeriesCache_live.cfg", "liveness: every request returns (fair loaders)", None, False),
     ("SeriesCache_orig_await.cfg", "before the repair: a request joins a load that finished before the invalidation", "invariant:CexExport", False),
+    ("SeriesCache_anyaw.cfg", "what-if: any finishing load takes the awaiters: an older load answers a request awaiting the newer one", "invariant:CexExport", False),
     ("SeriesCache_half_await.cfg", "half repair (only maybeAddChunk): a superseded load still publishes", "invariant:CexExport", True),
     ("SeriesCache_mc2_big.cfg", "protocol: 2 chunks x 2 slots, 2 requests, 1 invalidation, 1 trim, 1 failure", None, True),
     ("SeriesCache_mc1g3_big.cfg", "protocol: 1 chunk, 3 requests, invalidation, trim, failure", None, True),
@@ -93,7 +94,7 @@ def model_checks(ctx):
     return cex
 
 
-CFG_CS = {"SeriesCache_orig_await.cfg": 2, "SeriesCache_half_await.cfg": 2,
+CFG_CS = {"SeriesCache_orig_await.cfg": 2, "SeriesCache_half_await.cfg": 2, "SeriesCache_anyaw.cfg": 2,
           "SeriesCache_beh.cfg": 2, "SeriesCache_beh3.cfg": 1}
 
 
